@@ -5,6 +5,7 @@ package main
 // raw and handler forms versus direct decoding of each document (implementation oracles).
 
 import (
+	"path/filepath"
 	"os"
 	"bytes"
 	"errors"
@@ -443,6 +444,37 @@ func c13Stream(c *cur) string {
 					notes = append(notes, fmt.Sprintf("Raw value %d does not contain its document", i))
 				}
 			}
+		}
+	}
+	// the file writers and readers inherit this: the Maps written to a path that already holds a longer
+	// file are read back as exactly that many Maps (nothing of the old content is left behind)
+	if len(notes) == 0 && kind != "seq" && !raw && hashStr(stream)%4 == 0 {
+		f := filepath.Join(scratch(), "c13file")
+		os.WriteFile(f, []byte(strings.Repeat("<stale>old</stale>\n{\"stale\":1}\n", 40+len(stream)/8)), 0o644)
+		var ms mxj.Maps
+		for _, d := range docs {
+			var m mxj.Map
+			if kind == "xml" {
+				m, _ = mxj.NewMapXml([]byte(d))
+			} else {
+				m, _ = mxj.NewMapJson([]byte(d))
+			}
+			ms = append(ms, m)
+		}
+		var werr, rerr error
+		var back mxj.Maps
+		if kind == "xml" {
+			mxj.XMLEscapeChars(true)
+			werr = ms.XmlFile(f)
+			back, rerr = mxj.NewMapsFromXmlFile(f)
+			mxj.XMLEscapeChars(false)
+		} else {
+			werr = ms.JsonFile(f)
+			back, rerr = mxj.NewMapsFromJsonFile(f)
+		}
+		os.Remove(f)
+		if werr == nil && (rerr != nil || len(back) != len(ms)) {
+			notes = append(notes, fmt.Sprintf("FILE %d Maps written over an existing longer file are read back as %d Maps (%v)", len(ms), len(back), rerr))
 		}
 	}
 	// bulk handler: once per document, in order, stops when the handler returns false
